@@ -50,6 +50,7 @@ class Recorder:
         self.returned = Counter()     # (engine, class)
         self.raised = Counter()       # (engine, class, exception type)
         self.broken = []              # dicts
+        self.undecided = Counter()    # region name -> evaluations not judged
         self.enabled = True
         self.context = None           # set by the driver: description of the case
 
@@ -135,6 +136,18 @@ def pandas_dtype_check(t, out):
     return truthy(t.check(pandas_engine.Engine.dtype(out.dtype), out))
 
 
+def unhashable_dtype(out):
+    """True when a dtype object of the (pandas) container cannot be hashed,
+    e.g. a CategoricalDtype whose categories mix tuples with other values."""
+    dts = list(out.dtypes) if isinstance(out, pd.DataFrame) else [getattr(out, "dtype", None)]
+    for d in dts:
+        try:
+            hash(d)
+        except Exception:
+            return True
+    return False
+
+
 def polars_frames(data_container, result):
     import polars as pl
     lf_in = getattr(data_container, "lazyframe", data_container)
@@ -208,6 +221,9 @@ def post_result_passes_own_check(self, data_container, result):
         _, df_out, key = polars_frames(data_container, result)
         ok = polars_dtype_check(self, df_out, key)
         return ok, None if ok else f"schema {dict(df_out.schema)} fails {self}.check"
+    if unhashable_dtype(result):
+        REC.undecided["result-dtype-object-is-not-hashable(pandas)"] += 1
+        return True, None
     ok = pandas_dtype_check(self, result)
     return ok, None if ok else \
         f"dtype {getattr(result, 'dtype', getattr(result, 'dtypes', None))} fails {self}.check"
